@@ -5,16 +5,34 @@ import (
 	"fmt"
 	"github.com/orda-io/orda/client/pkg/context"
 	"github.com/orda-io/orda/client/pkg/errors"
+	"github.com/orda-io/orda/client/pkg/iface"
 	"github.com/orda-io/orda/client/pkg/model"
+	"strings"
 
 	"github.com/orda-io/orda/server/constants"
 	"github.com/orda-io/orda/server/mongodb"
 )
 
+// reservedCollectionPrefix begins the names of the collections the server keeps its own documents in (see schema).
+const reservedCollectionPrefix = "-_-"
+
+// checkCollectionName refuses names a collection of users cannot have: the empty name, and the names of the server's own
+// collections - a user collection of such a name would share its MongoDB collection with them, and resetting it would
+// drop the clients, datatypes or operations of every collection.
+func checkCollectionName(ctx iface.OrdaContext, name string) errors.OrdaError {
+	if name == "" || strings.HasPrefix(name, reservedCollectionPrefix) {
+		return errors.ServerBadRequest.New(ctx.L(), "not allowed as the name of a collection: '"+name+"'")
+	}
+	return nil
+}
+
 // CreateCollection creates a collection
 func (its *OrdaService) CreateCollection(goCtx goctx.Context, in *model.CollectionMessage) (*model.CollectionMessage, error) {
 	ctx := context.NewOrdaContext(goCtx, constants.TagCreate).
 		UpdateCollectionTags(in.Collection, 0)
+	if err := checkCollectionName(ctx, in.Collection); err != nil {
+		return nil, errors.NewRPCError(err)
+	}
 	num, err := mongodb.MakeCollection(ctx, its.managers.Mongo, in.Collection)
 	var msg string
 	if err != nil {
@@ -31,6 +49,9 @@ func (its *OrdaService) CreateCollection(goCtx goctx.Context, in *model.Collecti
 func (its *OrdaService) ResetCollection(goCtx goctx.Context, in *model.CollectionMessage) (*model.CollectionMessage, error) {
 	ctx := context.NewOrdaContext(goCtx, constants.TagReset).
 		UpdateCollectionTags(in.Collection, 0)
+	if err := checkCollectionName(ctx, in.Collection); err != nil {
+		return nil, errors.NewRPCError(err)
+	}
 	if err := its.managers.Mongo.PurgeCollection(ctx, in.Collection); err != nil {
 		return nil, errors.NewRPCError(err)
 	}
